@@ -90,7 +90,7 @@ def run(c):
                         enc.append(("2", w2))
                 if aj.startswith("ok "):
                     t = aj.split(" ")[1] if len(aj.split(" ")) > 1 else None
-                    if t and t != "-" and "5c" not in [t[i:i + 2] for i in range(0, len(t), 2)]:   # escapes: see C05 known finding (dictionary keys)
+                    if t and t != "-":
                         enc.append(("j", t))
                 pool.setdefault(inst["idx"], (inst, []))[1].extend(enc)
             mixed = []
